@@ -225,7 +225,20 @@ def rule_all_outputs(ctx: Ctx) -> None:
     for cls_, post_ in ((ms, post), (asp, apost)):
         cfg_p = ctx.cfg(post_)
         rej_nodes = [cfg_p.node(r_["node"]) for r_ in rejections(cfg_p, post_.node, Defs(post_)) if not r_["dead"] and cfg_p.node(r_["node"]) is not None]
-        early = [n_ for n_ in cfg_p.nodes(lambda s_: isinstance(s_, ast.Return)) if any(r_ > n_ and cfg_p.stmt[r_].lineno > cfg_p.stmt[n_].lineno for r_ in rej_nodes)]
+        par_p = {id(c_): p_ for p_ in ast.walk(post_.node) for c_ in ast.iter_child_nodes(p_)}
+
+        def inverted_last_check(ret: ast.Return) -> bool:
+            """`if ok: return` directly followed by the unconditional `raise` it guards: the last check written the other way round."""
+            i_ = par_p.get(id(ret))
+            if not isinstance(i_, ast.If):
+                return False
+            blk = next((b for b in (getattr(par_p.get(id(i_)), "body", None), getattr(par_p.get(id(i_)), "orelse", None)) if isinstance(b, list) and i_ in b), None)
+            if blk is None:
+                return False
+            rest = blk[blk.index(i_) + 1:]
+            return bool(rest) and isinstance(rest[-1], ast.Raise) and all(isinstance(x, (ast.Assign, ast.AnnAssign, ast.Expr)) for x in rest[:-1])
+
+        early = [n_ for n_ in cfg_p.nodes(lambda s_: isinstance(s_, ast.Return)) if not inverted_last_check(cfg_p.stmt[n_]) and any(r_ > n_ and cfg_p.stmt[r_].lineno > cfg_p.stmt[n_].lineno for r_ in rej_nodes)]
         ctx.add("3-all-outputs", post_, cfg_p.stmt[early[0]] if early else post_.node, not early, f"{cls_.name}.__post_init__ has no early return ahead of a rejection" if not early else
                 f"`return` at line {cfg_p.stmt[early[0]].lineno} of {cls_.name}.__post_init__ skips the rejections behind it for the specs that take it "
                 f"({' and '.join(t for t, p_ in guard_facts(cfg_p, Defs(post_), early[0]))[:60]}): malformed specs of that kind (\"... -> x[i, :]\", outputs with different indices) are accepted at construction", key=f"no-early-return {cls_.name}")
